@@ -30,9 +30,9 @@ Normal-form choices (validated by the correspondence run):
 * a single variable is narrowed, so the `varname` of a constraint is dropped and
   `OrConstraint._group_constraints` has one group per disjunct;
 * `id()`-based de-duplication / absorption inside `AndConstraint.make` / `OrConstraint.make` is not
-  modelled (the harness never passes the same constraint object twice); `list(set(...))` in
-  `OrConstraint.apply` makes the member order of the result hash-dependent, results are compared as
-  sets;
+  modelled (the harness never passes the same constraint object twice); `OrConstraint.apply`
+  de-duplicates its alternatives in order (`dict.fromkeys`, /repo 5fee81d; formerly `list(set(...))`),
+  the model keeps them in order too; results are nevertheless compared as sets (member order is C10's);
 * metadata of `AnnotatedValue` is not represented (`annotated t` stands for any metadata), so
   `annotate_value(v, [MinLen…])` is `annotate v`;
 * `is` on literals is `type(a) is type(b) and a == b` (`Obj.same`) — exact for the singletons
